@@ -197,7 +197,12 @@ def _random_env(rng, fast_row=False):
         rest = [0]
     else:
         rest = [rng.choice([0, 10 ** rng.uniform(-2, 5)]) for _ in range(rng.randint(1, 5))]
-    return _env_case(10 ** rng.uniform(2, 16), cd, fr, 10 ** rng.uniform(-3, 4), 10 ** rng.uniform(-6, 3), rest)
+    case = _env_case(10 ** rng.uniform(2, 16), cd, fr, 10 ** rng.uniform(-3, 4), 10 ** rng.uniform(-6, 3), rest)
+    if rng.random() < 0.25:
+        # the environment is built with other settings first and its public attributes are assigned
+        # afterwards (a beam-line description that is edited before the calculation)
+        case['env_init'] = [10 ** rng.uniform(2, 16), rng.choice([0, 0.5, 1, 4, 30]), rng.choice([0, 0, 10, 50])]
+    return case
 
 
 def _random_atoms(rng, T, mm):
@@ -376,6 +381,12 @@ def _rest(case, j):
 
 def _lib_env(case):
     A = _state['A']
+    if case.get('env_init'):
+        f0, cd0, fr0 = case['env_init']
+        env = A.ActivationEnvironment(fluence=f0, Cd_ratio=cd0, fast_ratio=fr0)
+        env.epithermal_reduction_factor      # read once with the initial settings
+        env.fluence, env.Cd_ratio, env.fast_ratio = case['fluence'], case['Cd_ratio'], case['fast_ratio']
+        return env
     return A.ActivationEnvironment(fluence=case['fluence'], Cd_ratio=case['Cd_ratio'], fast_ratio=case['fast_ratio'])
 
 
